@@ -16,6 +16,9 @@ CLAIMED = {
  'C09': dict(
   text="For every line-count expression up to the length bound over the alphabet '<>= 0-9x+tab' and every content of <= N short lines over {a, space, tab}, Z3 shows on the MIR of LineCountValidator::validate + parse_constraint: the run errors exactly on expressions outside the grammar ws* OP ws* +?digits ws* (value < 2^64); otherwise one violation iff not(count OP N) with data.actual/op/expected equal to count, OP, N.",
   note="Trusted: interpreter, string models (byte-wise ASCII semantics of trim/strip_prefix/parse/lines), serde_json::to_value modelled as identity. Two families (symbolic expression x concrete content; concrete expression menu x symbolic content) instead of the full product. ASCII only."),
+ 'C16': dict(
+  text="For every path of up to N bytes over an alphabet that spells the compound and look-alike suffixes, and every single -E remap pair, Z3 shows on the MIR of parse_file/parser_for_file_path/try_parser_for_extension, against the suffix table obtained by executing language_parsers() itself: the grammar used is the entry of the shortest dotted suffix that is (after remap) a key, else of the whole file name, else the file is neither read nor parsed. parse_extensions/Args::validate: KEY=VALUE needs '=', mappings onto unsupported grammars are rejected, onto each of the 39 keys accepted.",
+  note="Trusted: interpreter, string/path/HashMap models, stubs for the 23 grammar constructors, FileSystem::read_to_string and BlocksParser::parse. Not decided: clap's argument parsing, paths with '.', '..' or empty components, non-ASCII names."),
 }
 
 NOT_APPLICABLE = {
